@@ -110,7 +110,7 @@ KINDS = ['unknown_name', 'type_mismatch', 'missing_field', 'missing_index', 'unh
 # fault expressions; `lit` = only literals (usable inside a module body, which does not close over the file), `free` = use helper bindings
 FAULTS = {
     'unknown_name': dict(lit=['nope', 'nope.fld', 'nope(1)', '1 + nope', '[nope]', 'q'], free=['idf(nope)']),
-    'type_mismatch': dict(lit=['1 + "a"', '"a" + 1', '10 > "9"', '2 * "b"'], free=['1 + idf("a")', 'sv + 1', 'zero + "s"']),
+    'type_mismatch': dict(lit=['1 + "a"', '"a" + 1', '10 > "9"', '2 * "b"', '.5 + "a"', '"a" + .5', '1.5 * "b"'], free=['1 + idf("a")', 'sv + 1', 'zero + "s"']),
     'missing_field': dict(lit=['{a = 1}.b', '{a = {c = 1}}.a.b'], free=['tp.b', 'idf(tp).nofield', 'tp.inner.nothere']),
     'missing_index': dict(lit=['[1, 2].7'], free=['ls.7', 'idf(ls).2']),
     'unhandled_select': dict(lit=['select ("zz") => {aa = 1, bb = 2}', 'select ("zz") => {\n    aa = 1,\n    bb = 2,\n}', 'select (false) => {true = 1}'],
